@@ -63,6 +63,8 @@ class Models(object):
         self.fresh = 0
         self.used = {}
         self._register()
+        from . import stdmodels
+        stdmodels.register(self)
 
     def reset(self):
         self.assumptions = []
@@ -81,6 +83,11 @@ class Models(object):
         if h is None and key.endswith(' as Clone>::clone'):
             # Clone of a type without a Clone impl in the crate: std / derived-on-foreign type = value copy
             h = self.table['<T as Clone>::clone']
+        if h is None:
+            # iterator traits are modelled once for every implementing type (dispatch is on the model value)
+            m = re.match(r'^<(.*) as (Iterator|IntoIterator|ExactSizeIterator)>::([A-Za-z_0-9]+)$', key)
+            if m:
+                h = self.table.get('<I as %s>::%s' % (m.group(2), m.group(3)))
         if h is None:
             raise Unsupported('no environment model for callee `%s` (key %s) in %s' % (callee, key, fr.fn.name))
         self.used[key] = self.used.get(key, 0) + 1
